@@ -272,6 +272,16 @@ def submit_writes(F, R):
     if not oks:
         raise AnchorLost("OpDecl::submit: no Ok return found")
     bad = [i for i in oks if i in dom and not (dom[i] & ins)]
+    # ... and the other way round: nothing is written before both halves of the exclusion have been looked at
+    tests = {}
+    for nm in ("is_infix", "is_postfix"):
+        tests[nm] = set(cfg.call_blocks(lambda t, nm=nm: callee_of(t).endswith("::" + nm)))
+    if not all(tests.values()):
+        raise AnchorLost("OpDecl::submit: is_infix/is_postfix tests not found (%s)" % {k: sorted(v) for k, v in tests.items()})
+    early = [i for i in sorted(ins) if i in dom and not all(dom[i] & tests[nm] for nm in tests)]
+    R.ob("C43:submit:write-follows-the-infix-postfix-exclusion-test", not early,
+         "OpDecl::submit writes the declaration (block(s) %s) on a path that has not passed the is_infix()/is_postfix() tests against the existing definition: "
+         "op(200,xfx,n), op(0,xfx,n), op(200,xf,n), op(200,xfx,n) then leaves n both infix and postfix" % early, F.where(sb[0]))
     R.ob("C43:submit:accepted-declaration-is-written", not bad,
          "OpDecl::submit returns Ok on a path that does not write the declaration into the operator table (block(s) %s): op(700,xfx,foo), op(700,xfy,foo) then succeeds "
          "while current_op/3 and the reader still see xfx" % bad, F.where(sb[0]))
